@@ -58,14 +58,20 @@ WaitsFor(S, id) ==
 RECURSIVE Anc(_, _)
 Anc(S, id) == WaitsFor(S, id) \cup UNION {Anc(S, p) : p \in WaitsFor(S, id)}
 DomainOf(op) == IF op \in {"SLOAD", "SSTORE"} THEN "sto" ELSE "mem"
-\* the claim is made for specifications in which every load is ordered with every store of its domain (one way or the other).
-\* Without that a back-end may compute a load once before and once after the store - two different values under one name - which
-\* no schedule of the denotation produces; such a specification is not one the front-end may emit (C02 rejects it), so it is
-\* counted, not judged.
+\* declared pairs only, transitively
+DeclBefore(S, id) == {S.deps[k][1] : k \in {n \in 1..Len(S.deps) : S.deps[n][2] = id}}
+RECURSIVE DeclAnc(_, _)
+DeclAnc(S, id) == DeclBefore(S, id) \cup UNION {DeclAnc(S, p) : p \in DeclBefore(S, id)}
+\* the claim is made for specifications in which every load is ordered with every store of its domain: the store first (a chain
+\* of declared pairs and data flow ending in the load), or the load first BY DECLARED PAIRS.  Data flow alone (the store consumes the
+\* loaded value) orders only the first occurrence of the load: a back-end may compute the load again after the store - two different
+\* values under one name - which no schedule of the denotation produces.  TLC found both variants on hand-built specifications: no
+\* pair at all, and data flow without a pair.  The front-end declares the pair in that situation; a specification that does not is
+\* rejected by C02, so here it is counted, not judged.
 LoadStoreOrdered(S) ==
   \A l \in {x \in MemOps(S) : InsById(S, x).op \in LoadKinds} :
     \A t \in {x \in MemOps(S) : InsById(S, x).op \notin LoadKinds} :
-       DomainOf(InsById(S, l).op) = DomainOf(InsById(S, t).op) => (l \in Anc(S, t) \/ t \in Anc(S, l))
+       DomainOf(InsById(S, l).op) = DomainOf(InsById(S, t).op) => (l \in DeclAnc(S, t) \/ t \in Anc(S, l))
 
 \* value of a term on the initial stack st0; loads take the value recorded when they were executed
 RECURSIVE Ev(_, _, _, _)
